@@ -63,6 +63,7 @@ type Engine struct {
 	typeCache  map[string]types.Type
 	AssertLabels map[string]*AssertStat
 	ForkSites map[string]int
+	hardConds map[int]bool // conditions of deliberate case splits (choices, concretisations): never merged away
 }
 
 type AssertStat struct{ Checked, Failed, Unknown int }
@@ -115,7 +116,7 @@ func NewEngine(prog *ssa.Program, solverKind string, timeoutMs int) (*Engine, er
 	e := &Engine{Prog: prog, TT: tt, Solver: s, Intrinsics: map[string]Intrinsic{}, Redirects: map[string]*ssa.Function{},
 		NativeGlob: map[string]interface{}{}, Reach: map[string]int{}, inputSeen: map[string]bool{},
 		Encoded: map[string]bool{}, StubsUsed: map[string]int{}, pdomCache: map[*ssa.Function]map[*ssa.BasicBlock]*ssa.BasicBlock{},
-		rpoCache: map[*ssa.Function]map[*ssa.BasicBlock]int{}, MaxSteps: 50_000_000, MaxVisits: 20000, Ctx: map[string]interface{}{}, InterpPkgs: map[string]bool{},
+		rpoCache: map[*ssa.Function]map[*ssa.BasicBlock]int{}, hardConds: map[int]bool{}, MaxSteps: 50_000_000, MaxVisits: 20000, Ctx: map[string]interface{}{}, InterpPkgs: map[string]bool{},
 		nativeMemo: map[uintptr]int{}, typeCache: map[string]types.Type{}, AssertLabels: map[string]*AssertStat{}}
 	registerIntrinsics(e)
 	return e, nil
@@ -170,6 +171,15 @@ func (st *State) wframeAt(i int) *Frame {
 	}
 	st.frames[i] = &n
 	return &n
+}
+
+// addHardPC adds a case-split condition that must survive merging.
+func (e *Engine) addHardPC(st *State, c *Term) {
+	if c.Op == OpConst {
+		return
+	}
+	e.hardConds[c.ID] = true
+	st.pc = append(st.pc, c)
 }
 
 func (st *State) addPC(c *Term) {
